@@ -247,6 +247,13 @@ def tie(ctx, tier_override=None, tag="tie"):
                 add("marshal:%s:define-global" % c[2],
                     "storing a %s in a global (ExternModule::new marshals it into a rooted value) fails or leaves the VM unusable" % c[2],
                     case, m.get("define"), im.get("define"))
+        elif parts[0] == "R":
+            compared += 1
+            if im.get("reget") != m.get("reget"):
+                case = {"type": c[2], "type_index": int(c[1]), "tcode": parts[1], "value": parts[2]}
+                add("marshal:%s:getglobal-after-load" % c[2],
+                    "a global holding a %s is no longer returned at its own Rust type once another script has been loaded" % c[2],
+                    case, m.get("reget"), im.get("reget"))
         elif parts[0] == "G":
             tw, tt, val = parts[1], parts[2], parts[3]
             case = {"requested": c[4] if len(c) > 4 else tw, "stored": c[2], "type_index": int(c[1]), "tcode_requested": tw, "tcode": tt, "value": val}
